@@ -11,6 +11,7 @@ import (
 	"hash/fnv"
 	"os"
 	"path/filepath"
+	"runtime"
 	"runtime/debug"
 	"sort"
 	"strconv"
@@ -18,6 +19,7 @@ import (
 	"sync"
 	"testing"
 	"testing/synctest"
+	"time"
 
 	"pgregory.net/rapid"
 )
@@ -211,6 +213,10 @@ func (r *Run) record(sub string, sc any, v Verdict) bool {
 	}
 	r.mu.Lock()
 	defer r.mu.Unlock()
+	if strings.Contains(v.Violation, "WATCHDOG-INCONCLUSIVE") {
+		r.st.Inconclusive = v.Violation
+		return false
+	}
 	if v.Violation != "" {
 		if f, isK := r.isKnown(v.Fingerprint); isK {
 			r.st.Known[f.Fingerprint]++
@@ -362,7 +368,42 @@ func Bubble(t *testing.T, fn func()) (failure string) {
 		})
 		returned = true
 	}()
-	return <-ch
+	select {
+	case msg := <-ch:
+		return msg
+	case <-time.After(bubbleWatchdog):
+	}
+	// Real-time watchdog (this goroutine is outside the bubble). The bubble cannot detect a
+	// deadlock that involves a goroutine blocked on a sync.Mutex, because such a goroutine is
+	// not "durably blocked" and synctest.Wait() then never returns. The verdict is not based on
+	// the elapsed time alone: the goroutine dump must show a bubble goroutine parked in
+	// sync.Mutex.Lock called from flyt code; otherwise the case is inconclusive.
+	buf := make([]byte, 4<<20)
+	buf = buf[:runtime.Stack(buf, true)]
+	if g := mutexBlockedInFlyt(string(buf)); g != "" {
+		return "deadlock (watchdog after " + bubbleWatchdog.String() + " of real time): a goroutine of the case is blocked in sync.Mutex.Lock called from flyt while every other goroutine is parked:\n" + g
+	}
+	return "WATCHDOG-INCONCLUSIVE: case did not finish within " + bubbleWatchdog.String() + " of real time and no flyt goroutine is blocked on a mutex"
+}
+
+var bubbleWatchdog = 30 * time.Second
+
+// mutexBlockedInFlyt returns the stack of a goroutine that is inside a synctest bubble, waits
+// in sync.(*Mutex).Lock / RWMutex and has a flyt frame, or "".
+func mutexBlockedInFlyt(dump string) string {
+	for _, g := range strings.Split(dump, "\n\n") {
+		head, _, _ := strings.Cut(g, "\n")
+		if !strings.Contains(head, "synctest bubble") {
+			continue
+		}
+		if !(strings.Contains(head, "sync.Mutex.Lock") || strings.Contains(head, "sync.RWMutex") || strings.Contains(g, "sync.(*Mutex).Lock") || strings.Contains(g, "sync.(*RWMutex)")) {
+			continue
+		}
+		if strings.Contains(g, "github.com/mark3labs/flyt.") {
+			return trimStack([]byte(g))
+		}
+	}
+	return ""
 }
 
 func trimStack(b []byte) string {
